@@ -17,17 +17,19 @@ Space (enumerated completely, simplest first): a parametric skool/ref/option gra
                  comment, multi-line instruction comment, mid-block comment, end
                  comment) plus [Page], box page entries and a memory map intro
     other.skool  a secondary disassembly ([OtherCode:other]; optionally a second one)
-                 with @remote back to main
+                 with @remote back to main; its second entry of every type of bcgistuw
     main.ref     AddressAnchor, LinkOperands, LinkInternalOperands(+MinDistance),
                  AsmSinglePage, [Paths] nesting for code/other code/index/maps/single
                  page/CSS+JS/images+audio/custom page, [Paths] naming relation (every
                  top-level name of the tree a proper string prefix of the next one, in
                  both orders, at the root and below a common parent directory), [Page:*],
-                 box page types, [MemoryMap:*] parameters, [Resources], Logo/LogoImage,
+                 box page types, [MemoryMap:*] parameters, the index page of the secondary
+                 disassembly as a user-defined or as the built-in memory map, [Resources],
+                 Logo/LogoImage,
                  JavaScript
     options      -1 -a -C -D/-H -l/-u -o -O -T -j and every subset of -w dimoP
 
-explored as core.deviations from the default configuration (quick: d <= 2 over all 45
+explored as core.deviations from the default configuration (quick: d <= 2 over all 47
 dimensions; thorough: additionally d <= 3 over the 21 link-forming core dimensions).
 The -w letters form one more dimension whose 31 non-default values are all run (quick:
 on the default configuration; thorough: on every configuration with <= 1 deviation),
@@ -64,13 +66,14 @@ NEEDS_C = False
 # Default value first.  Every dimension is documented where it is consumed (build_case).
 DEFAULT = dict(
     # skool file shape
-    tgt='entry', rtgt='e2', rform='plain', ttype='c', stype='c', e3='i', rst='entry', label='none', other='one', hexskool=0,
+    tgt='entry', rtgt='e2', rform='plain', ttype='c', stype='c', e3='i', rst='entry', label='none', other='one', otype='w',
+    hexskool=0,
     # ref file
     anchor='dec', linkops='default', lio='0', single=0, codepath='asm', codefiles='default', opaths='default',
     indexpath='default', mappath='default', asmpage='default', respath='default', assetpath='default', pagepath='default',
     dirnames='distinct',
     pagejs=0, gamejs=0, css='one', resources=0, logo='none', mapdesc=0, maplabel=0, mapwrite='default', mapincl='includes',
-    box='para', boxlink='blank', refpages=0,
+    omap='section', box='para', boxlink='blank', refpages=0,
     # options
     one=0, a=0, C=0, base='', case='', theme=0, joincss=0, o=0, O=0,
 )
@@ -84,6 +87,7 @@ ALTS = dict(
     rst=['mid', 'ep', 'none'],
     label=['e1', 'e2', 'both'],
     other=['two'],
+    otype=['b', 'c', 'g', 's', 't', 'u', 'i'],
     hexskool=[1],
     anchor=['hex', 'HEX', 'if'],
     linkops=['all', 'ld'],
@@ -108,6 +112,7 @@ ALTS = dict(
     maplabel=[1],
     mapwrite=['noroutines'],
     mapincl=['types'],
+    omap=['builtin'],
     box=['list', 'bullets'],
     boxlink=['text'],
     refpages=[1],
@@ -383,6 +388,9 @@ class Case:
         kind = cfg['rtgt']
         if (kind == 'e0' and not self.e0) or (kind == 'e3' and not self.e3):
             kind = 'e2'
+        if kind == 'other_entry' and cfg['otype'] == 'i':
+            # #R aimed at an ignored entry is explored with the main disassembly's third entry (rtgt=e3)
+            kind = 'remote'
         addr, entry, code = {
             'e2': (E2, E2, 'main'), 'e2mid': (E2 + 10, E2, 'main'), 'e2ep': (E2 + 3, E2, 'main'),
             'e1': (E1, E1, 'main'), 'e1mid': (E1 + 1, E1, 'main'), 'e1ep': (E1 + 2, E1, 'main'),
@@ -488,7 +496,7 @@ class Case:
         L += ['; Other routine #R{}@main'.format(E1),
               ';',
               '; From other code {} #R{}@main #R{} #LINK(GameIndex)(home) #LINK(MemoryMap#32768)(map) #LINK(other-Index#{})(own) #UDG{} '
-              '#HTML(<span id="n{}"></span>)'.format(R, E1 + 2, OC2, OC, UDG_ADDR, OC),
+              '#HTML(<span id="n{}"></span>)'.format(R, E1 + 2, OC2 if cfg['otype'] != 'i' else OC + 3, OC, UDG_ADDR, OC),
               'c{} CALL {} ; {}'.format(self.A(OC), self.op(E1), R),
               '*{} JP {}'.format(self.A(OC + 3), self.op(E1 + 2)),
               ' {} RET'.format(self.A(OC + 6)),
@@ -496,7 +504,9 @@ class Case:
               '; Other data',
               ';',
               '; #HTML(<span id="n{}"></span>)'.format(OC2),
-              'w{} DEFW {}'.format(self.A(OC2), self.op(OC)),
+              # the second entry: every entry type (dimension 'otype'); the instructions stay DEFW statements, which are
+              # valid in an entry of any type, so that the operand links do not depend on the entry type
+              '{}{} DEFW {}'.format(cfg['otype'], self.A(OC2), self.op(OC)),
               ' {} DEFW {}'.format(self.A(OC2 + 2), self.op(E1)),
               ' {} DEFW {}'.format(self.A(OC2 + 4), self.op(OC + 3)),
               '']
@@ -591,7 +601,10 @@ class Case:
             M += ['[MemoryMap:RoutinesMap]', 'Write=0', '']
         # EntryTypes must be repeated: a user-defined [MemoryMap:other-Index] section replaces the built-in
         # one, and by the documentation a memory map shows no entry types unless EntryTypes names them
-        M += ['[MemoryMap:other-Index]', 'EntryTypes=bcgstuw', 'Intro=Other index {}'.format(self.R('other')), '']
+        # omap='builtin': no such section, the index page of the secondary disassembly is the built-in memory map,
+        # which lists every entry that has a page (each of those pages links up to its row on the index page)
+        if cfg['omap'] == 'section':
+            M += ['[MemoryMap:other-Index]', 'EntryTypes=bcgstuw', 'Intro=Other index {}'.format(self.R('other')), '']
         L += M
         L += ['[Index:MemoryMaps:Memory maps]', 'MemoryMap', 'RoutinesMap', 'DataMap', 'MessagesMap', 'UnusedMap', 'Custom', '']
         L += ['[Index:Reference:Reference]', 'Changelog', 'Glossary', 'Facts', 'Bugs', 'Pokes', 'P1', 'Box', '']
@@ -635,7 +648,8 @@ class Case:
             main_entries = [e2 if e is self.e2 else e for e in main_entries]
         main_entries.sort()
         other_entries = [(OC, [(OC, 'c', ''), (OC + 3, '*', ''), (OC + 6, ' ', '')]),
-                         (OC2, [(OC2, 'w', ''), (OC2 + 2, ' ', ''), (OC2 + 4, ' ', '')])]
+                         (OC2, [(OC2, cfg['otype'], ''), (OC2 + 2, ' ', ''), (OC2 + 4, ' ', '')])]
+        other_entries = [e for e in other_entries if e[1][0][1] != 'i']     # an 'i' entry has no page and no row
         aux_entries = [(AUX, [(AUX, 'c', ''), (AUX + 3, ' ', '')])]
         html = {}           # path -> (category, -w letter)
         ids = {}            # path -> {id: role}      ids that must occur exactly once
@@ -716,6 +730,8 @@ class Case:
         self.owner = owner
         self.anchor_owner = anchor_owner
         self.entry_anchors = {A(e[0]) for e in main_entries + other_entries + aux_entries}
+        # entry type of each row of the index page of the secondary disassembly 'other'
+        self.oindex_types = {A(e[0]): e[1][0][1] for e in other_entries}
 
     def args(self, outdir, w=W_FULL):
         cfg = self.cfg
@@ -953,6 +969,8 @@ def check_tree(case, tree, w=W_FULL, full=None, counters=None):
                 if q.startswith(here) and not q.startswith(here + '/'):
                     count('prefix_sibling_pages:{}>{}'.format(case.html[p][0], case.html[q][0]))
 
+    if cfg['otype'] == 'i':
+        count('other_entry_ignored')
     if tree.rc:
         bad('tool_failed', str(tree.exc).split(':')[0], 'skool2html failed on documented input: {} {}'.format(tree.exc, tree.err.strip()[-300:]),
             box=cfg['box'], boxlink=cfg['boxlink'], error=str(tree.exc)[:120])
@@ -1001,6 +1019,9 @@ def check_tree(case, tree, w=W_FULL, full=None, counters=None):
                     page=cat, role=role, entry_first_instruction=(role == 'entry' and 'address_span' in ctxs),
                     entry_div='entry_div' in ctxs, block_comment='block_comment_span' in ctxs, n=len(ctxs))
         for v, role in sorted(model.items()):
+            if cat == 'oindex' and case.owner.get(p) == 'other' and role == 'map_entry':
+                # vacuity guard of the dimensions 'otype' x 'omap', taken from the model (not from what was written)
+                count('oindex_{}_row:{}'.format(cfg['omap'], case.oindex_types[v]))
             if v not in byid:
                 bad('missing_anchor', role, '{}: no element with id "{}" ({})'.format(p, v, role), page=cat, role=role)
             else:
@@ -1172,6 +1193,12 @@ REQUIRED = [
     'prefix_sibling_pages:asm>index', 'prefix_sibling_pages:asm>oindex', 'prefix_sibling_pages:map>asm', 'prefix_sibling_pages:map>index',
     'prefix_sibling_pages:oasm>asm', 'prefix_sibling_pages:oasm>oasm', 'prefix_sibling_pages:oasm>map', 'prefix_sibling_pages:oindex>asm',
     'prefix_sibling_pages:box>asm', 'prefix_sibling_pages:map>asm1', 'prefix_sibling_pages:oasm1>asm1',
+    # rows of the secondary disassembly's index page that the model requires, by entry type, with the user-defined
+    # [MemoryMap:other-Index] section and with the built-in memory map
+    'oindex_section_row:b', 'oindex_section_row:c', 'oindex_section_row:g', 'oindex_section_row:s', 'oindex_section_row:t',
+    'oindex_section_row:u', 'oindex_section_row:w',
+    'oindex_builtin_row:b', 'oindex_builtin_row:c', 'oindex_builtin_row:g', 'oindex_builtin_row:s', 'oindex_builtin_row:t',
+    'oindex_builtin_row:u', 'oindex_builtin_row:w', 'other_entry_ignored',
 ]
 
 
@@ -1188,7 +1215,9 @@ def run(tier, seed):
              'directories/root files of the tree ([Paths]: {}) so that each name is a proper string prefix of the next one without any '
              'directory containing another, in both orders (chain, chain_rev: every ordered pair (directory of the linking page, target '
              'path) occurs with the first a string prefix of the second) and the same below a common parent directory (nested, '
-             'nested_rev); non-trivial = any deviation from the default; '
+             'nested_rev); the secondary disassembly has a routine with an entry point and a second entry of every type (otype: '
+             'w,b,c,g,s,t,u,i) and its index page is either a user-defined [MemoryMap:other-Index] section (EntryTypes=bcgstuw, Intro) '
+             'or the built-in memory map (omap); non-trivial = any deviation from the default; '
              'states = distinct (file set, per-page reference set) outcomes'.format(d_all, len(DEFAULT), nalt, core_txt, d_w, len(SLOTS),
                                                                                   ','.join(s for s, _ in SLOTS)),
         exhaustive=True,
@@ -1207,6 +1236,8 @@ def run(tier, seed):
             '-w subsets: a run writes only the chosen kinds of page by design, so a link from a written page to a page of a kind left out is '
             'accepted iff it resolves (file and fragment) in the complete tree of the same configuration; links on the index page and all '
             'src/stylesheet/script references are always strict',
+            'the instructions of the secondary disassembly are the same statements under every entry type (otype); #R is not aimed at its '
+            "second entry when that is an 'i' entry (#R to an ignored entry is explored with the main disassembly, rtgt=e3)",
             'address values, entry sizes and the number of entries are fixed by the grammar (E0 7/8, E1 32768, E2 32800, E3 33000, other '
             'code 49152/49200/50000)',
         ],
